@@ -102,7 +102,7 @@ func (s *Sim) Gaps() []time.Duration {
 	m := s.W.AB.Config.Modules
 	g := []time.Duration{time.Second, 9 * time.Second, 10 * time.Second, 11 * time.Second, time.Minute}
 	add := func(d time.Duration) {
-		if d > 0 {
+		if d > 0 && d < 100*365*24*time.Hour {
 			g = append(g, d-time.Nanosecond, d, d+time.Nanosecond, d-time.Second, d+time.Second, 3*d)
 		}
 	}
